@@ -300,7 +300,7 @@ class Core:
 
     def edit(self):
         rng = self.rng
-        k = rng.choice(["add", "add", "remove", "move", "move", "replace", "kind", "exec", "unversion", "version"])
+        k = rng.choice(["add", "add", "remove", "move", "move", "replace", "kind", "exec", "unversion", "version", "lose_contents"])
         labs = self.alive()
         if k == "add" or not labs:
             return self.add(versioned=rng.random() < 0.9) is not None
@@ -316,6 +316,12 @@ class Core:
         if k == "exec":
             return self.set_exec(lab)
         e = self.e[lab]
+        if k == "lose_contents":
+            if not (e["tree"] and e["v"] and not e.get("touched") and not self.children(lab)):
+                return False
+            self.ops.append(["delete_contents", lab])  # stays versioned: a versioned entry without a file
+            e.update(touched=True, kind=None, alive=False)
+            return True
         if k == "unversion" and e["tree"] and e["v"] and not self.children(lab) and not e.get("touched"):
             self.ops.append(["unversion_file", lab])
             e["v"] = False
@@ -410,6 +416,24 @@ class Core:
             self.ops.append(["new_file", lab, name, f, f"{name} below a file\n", True, None])
             self.e[lab] = {"name": name, "parent": f, "kind": "file", "v": True, "tree": False, "alive": True, "execset": True}
             return True
+        if kind == "duplicate content-less":
+            # what a contents conflict leaves behind: the contents of a versioned entry are
+            # deleted while the entry stays versioned (it still occupies its name in the
+            # inventory), and another versioned entry takes the same name in that directory
+            cands = [x for x in labs if self.e[x]["tree"] and self.e[x]["v"] and not self.e[x].get("touched") and not self.children(x)]
+            if not cands:
+                return False
+            x = rng.choice(cands)
+            par, name = self.e[x]["parent"], self.e[x]["name"]
+            self.ops.append(["delete_contents", x])
+            self.e[x].update(touched=True, kind=None, alive=False)
+            movable = [y for y in labs if y != x and not self.inside(par, y) and not self.e[y].get("touched")]
+            if movable and rng.random() < 0.35:
+                y = rng.choice(movable)
+                self.ops.append(["adjust_path", name, par, y])
+                self.e[y].update(name=name, parent=par, touched=True)
+                return True
+            return self.add(parent=par, name=name, versioned=True) is not None
         if kind == "versioning no contents":
             lab = self.fresh()
             par = rng.choice(self.dirs())
@@ -423,7 +447,7 @@ class Core:
         return False
 
 
-CONFLICT_KINDS = ["duplicate", "duplicate id", "parent loop", "missing parent", "unversioned parent", "non-directory parent", "versioning no contents"]
+CONFLICT_KINDS = ["duplicate", "duplicate content-less", "duplicate id", "parent loop", "missing parent", "unversioned parent", "non-directory parent", "versioning no contents"]
 
 
 def generate_core(rng, tier):
@@ -645,6 +669,55 @@ def explicit_exec_paths(tt):
     return out
 
 
+def stranded_children(tt):
+    """Final paths of versioned trans ids without contents whose final parent is not a
+    directory (deleted or turned into a file/symlink)."""
+    from breezy.transform import ROOT_PARENT, FinalPaths
+
+    fp = FinalPaths(tt)
+    out = set()
+    for trans_id in sorted(set(tt._tree_id_paths) | set(tt._new_name)):
+        try:
+            if trans_id == tt.root or tt.final_kind(trans_id) is not None or not tt.final_is_versioned(trans_id):
+                continue
+            parent = tt.final_parent(trans_id)
+            if parent != ROOT_PARENT and tt.final_kind(parent) != "directory":
+                out.add(fp.get_path(trans_id))
+        except Exception:  # noqa: BLE001
+            pass
+    return out
+
+
+def unreported_duplicates(tt):
+    """[(final path, [trans ids])] of versioned trans ids that share one final (parent, name)
+    in a transform whose find_raw_conflicts() reports nothing: an inventory cannot hold both."""
+    from breezy.transform import FinalPaths
+
+    if tt.find_raw_conflicts():
+        return []
+    fp = FinalPaths(tt)
+    by = {}
+    for trans_id in sorted(set(tt._tree_id_paths) | set(tt._new_name) | set(tt._new_parent)):
+        if trans_id == tt.root:
+            continue
+        try:
+            if not tt.final_is_versioned(trans_id):
+                continue
+            key = (tt.final_parent(trans_id), tt.final_name(trans_id))
+        except Exception:  # noqa: BLE001 - no final path
+            continue
+        by.setdefault(key, []).append(trans_id)
+    out = []
+    for (_parent, _name), tids in sorted(by.items()):
+        if len(tids) > 1:
+            try:
+                path = fp.get_path(tids[0])
+            except Exception:  # noqa: BLE001
+                path = _name
+            out.append((path, tids))
+    return out
+
+
 def deleted_final_paths(tt):
     """Final paths of trans ids that end without contents (deleted, or named by
     create_path and never given contents): the names PreviewTree._path2trans_id may
@@ -795,11 +868,14 @@ def _execute(sim, plan):
     crashed = None
     preview_error = None
     apply_error = None
+    finalize_error = None
+    dup_unreported = []
     moved = {}
     moved_from = {}
     reversioned = set()
     explicit_exec = set()
     deleted_names = set()
+    stranded = set()
     try:
         done = run_script(sim, tt, plan, fmt)
         dog.arm()
@@ -813,6 +889,8 @@ def _execute(sim, plan):
         except Exception as e:  # noqa: BLE001 - neither resolved nor reported as malformed
             crashed = (e, resolver_in(e.__traceback__))
         if malformed is None and crashed is None:
+            dup_unreported = unreported_duplicates(tt)
+        if malformed is None and crashed is None:
             stage = "preview"
             try:
                 pt = tt.get_preview_tree()
@@ -823,6 +901,7 @@ def _execute(sim, plan):
                 reversioned = reversioned_paths(tt)
                 explicit_exec = explicit_exec_paths(tt)
                 deleted_names = deleted_final_paths(tt)
+                stranded = stranded_children(tt)
             except Hang:
                 raise
             except Exception as e:  # noqa: BLE001 - the preview tree cannot even be listed
@@ -848,10 +927,27 @@ def _execute(sim, plan):
         dog.disarm()
         try:
             tt.finalize()
+        except Exception as e:  # noqa: BLE001 - e.g. ImmortalPendingDeletion after a failed apply()
+            finalize_error = e
         finally:
             osseam.deactivate(sim)
+    if finalize_error is not None and apply_error is None and sim.violation is None:
+        apply_error = finalize_error  # clean-up of a conflict-free transform failed: same class
     sim.nontrivial = done >= 3 and len(seen) >= 1
     sim.state_seen((tuple(sorted(set(seen))), malformed is not None))
+    if dup_unreported:
+        # its own oracle: never attributed to a preview-mismatch family
+        sim.probe("duplicate_unreported")
+        sim.event("outcome", "duplicate-unreported", len(dup_unreported))
+        after = ""
+        if apply_error is not None:
+            st = xformsim.tree_state(root)
+            after = f"; apply() then raised {type(apply_error).__name__}" + ("" if st == s0 else " and left the tree partially applied")
+        sim.fail(
+            "duplicates_reported",
+            ["duplicates_reported", "none", f"{fmt}:two-versioned-entries-one-name"],
+            f"the transform is reported conflict-free, yet versioned trans ids share one final (parent, name): {dup_unreported[:4]}{after} [conflicts resolved: {sorted(set(seen))}]",
+        )
     if apply_error is not None:
         e = apply_error
         sim.probe("apply_failed")
@@ -954,7 +1050,12 @@ def _execute(sim, plan):
             continue
         text = f"versioned entry {p!r}: preview {pv.get(p)!r} / applied {qv.get(p)!r}"
         in_moved_dir = any((p.startswith(d + "/") or tp.startswith(td + "/")) for d, k in moved.items() if k == "directory" for tp in [moved_from.get(p, p)] for td in [moved_from.get(d, d)])
-        if fmt == "git" and p in reversioned:
+        if p in stranded:
+            # find_raw_conflicts() looks only at children that have contents: a versioned entry
+            # whose contents are deleted stays in the inventory below a parent that stops being
+            # a directory; the preview lists it, the applied inventory silently drops it
+            add(f"{fmt}:content-less-versioned-child-of-non-directory", text)
+        elif fmt == "git" and p in reversioned:
             # one family, two sites: _generate_index_changes ignores _versioned (apply adds the
             # file only if it is also renamed/rewritten) and final_entry returns None for a file
             # the old index does not know (the preview's entry listing omits it either way)
